@@ -172,6 +172,8 @@ def expected(fam, payload):
     """field -> bytes, as the matching get_* must return after this payload was written."""
     out = {}
     for k, v in payload.items():
+        if k.startswith("_"):
+            continue
         name = "rate" if (k == "rates") else k
         if isinstance(v, float):
             out[name] = ("f", struct.pack("<d", v))
@@ -267,7 +269,7 @@ class RepositoryMachine(Machine):
                 key = self._pick_key(rng, g, fam, species, written)
                 ops.append({"op": "read", "fam": fam, "root": root, "key": key})
             elif u < 0.74:
-                how = rng.choice(["axis2d", "shape", "charge", "species", "pecclass", "metastable", "refscalar", "refscalar", "nonnumeric", "missingfield"])
+                how = rng.choice(["axis2d", "shape", "charge", "species", "pecclass", "metastable", "refscalar", "refscalar", "nonnumeric", "missingfield", "extrafield"])
                 entries = []
                 for _ in range(rng.randint(1, 3)):
                     key = self._pick_key(rng, g, fam, species, written)
@@ -310,6 +312,7 @@ class RepositoryMachine(Machine):
         kind = rng.choice(["adf11scd", "adf11acd", "adf11ccd", "adf11plt", "adf11prb", "adf11prc", "adf12", "adf15",
                            "adf21", "adf22bmp", "adf22bme"])
         op = {"op": "install", "kind": kind, "root": root, "download": rng.random() < 0.4, "stale_cache": rng.random() < 0.25,
+              "leading_slash": rng.random() < 0.25,
               "file": "adf/%s/f%d.dat" % (kind, rng.randrange(3)), "tag": rng.randrange(1000)}
         sp = rng.choice([s for s in species if s not in ("D", "H1")] or ["C"])
         op["sp"] = sp
@@ -340,6 +343,8 @@ class RepositoryMachine(Machine):
         import json, zlib
         ident = {k: v for k, v in op.items() if k not in ("root", "download", "file", "op")}
         op["file"] = "adf/%s/%08x.dat" % (kind, zlib.crc32(json.dumps(ident, sort_keys=True).encode()))
+        if op.pop("leading_slash", False) and op["download"] and not op["stale_cache"]:
+            op["file"] = "/" + op["file"]        # OPEN-ADAS style path "/adf11/..." (the URL builder strips the slash)
         return op
 
     # ------------------------------------------------------------------ world
@@ -391,6 +396,8 @@ class RepositoryMachine(Machine):
         k = dict(key)
         if how == "npcharge":
             k["ch"] = np.int64(k["ch"])          # a charge that is an integer but not a Python int
+            if "m" in k:
+                k["m"] = np.int64(k["m"])        # ... and so is the metastable (np.arange, np.argmax results)
         S = self._sp
         tr = tuple(k["tr"]) if "tr" in k else None
         if fam in ADF11:
@@ -463,7 +470,7 @@ class RepositoryMachine(Machine):
         return (k0, tr)
 
     def _call_update(self, fam, entries, root, species_override=None, cls_override=None, how="list", pathlib_root=False,
-                     empty_transition=None):
+                     empty_transition=None, npmeta=False):
         rp = self._root(root)
         if pathlib_root:
             import pathlib
@@ -486,7 +493,7 @@ class RepositoryMachine(Machine):
             elif fam == "wavelength":
                 self._nest(d, [S(k["sp"]), k["ch"], tr], p["wavelength"])
             elif fam == "beam_cx":
-                self._nest(d, [S(k["d"]), S(k["sp"]), k["ch"], tr, k["m"]], p)
+                self._nest(d, [S(k["d"]), S(k["sp"]), k["ch"], tr, np.int64(k["m"]) if npmeta else k["m"]], p)
                 if empty_transition is not None and k is empty_transition[0]:
                     d[S(k["d"])][S(k["sp"])][k["ch"]].setdefault(tuple(empty_transition[1]), {})
             elif fam == "beam_stopping":
@@ -725,7 +732,8 @@ class RepositoryMachine(Machine):
                 self._call_add(fam, op["key"], op["payload"], root, how=op.get("as", "list"), pathlib_root=bool(op.get("pathlib")))
             else:
                 self._call_update(fam, entries, root, how=op.get("as", "list") if op.get("as") != "npcharge" else "list",
-                                  pathlib_root=bool(op.get("pathlib")), empty_transition=self._empty_tr(c, op, fam, root, entries))
+                                  pathlib_root=bool(op.get("pathlib")), empty_transition=self._empty_tr(c, op, fam, root, entries),
+                                  npmeta=op.get("as") == "npcharge")
             raised = None
         except Exception as e:
             raised = e
@@ -808,6 +816,11 @@ class RepositoryMachine(Machine):
                         v[-1][-1][-1] = "n/a"
                 else:
                     v[-1] = "n/a"
+        elif how == "extrafield":
+            if fam == "wavelength":
+                applicable = False
+            else:
+                bad["payload"]["_comment"] = {"not", "serialisable"}       # a set: json.dump cannot write it
         elif how == "missingfield":
             flds = sorted(bad["payload"])
             if fam == "wavelength" or not flds:
